@@ -216,7 +216,7 @@ impl AstLowering {
 
                 // Infer loop variable type from iterable and add to scope
                 let loop_var_ty = match &iterable.ty {
-                    IrType::List(elem) => (**elem).clone(),
+                    IrType::List(elem) | IrType::Set(elem) => (**elem).clone(),
                     IrType::Dict(k, _) => (**k).clone(),
                     IrType::String | IrType::StaticStr | IrType::StrRef => IrType::String,
                     _ => IrType::Unknown,
